@@ -131,6 +131,12 @@ std::vector<std::string> suite_names();
 
 struct SuiteRegistrar { explicit SuiteRegistrar(const Suite & s) { register_suite(s); } };
 
+// where things live (overridable so that a private copy of the repository / a snapshot of /verif can be used):
+//   BXSIM_REPO (default /repo), BXSIM_VERIF (default /verif), BXSIM_BUILD (default $BXSIM_VERIF/build)
+std::string repo_dir();
+std::string verif_dir();
+std::string build_dir();
+
 // string escaping for the line/plan formats
 std::string esc(const std::string & s);
 std::string unesc(const std::string & s);
